@@ -1,6 +1,7 @@
 import NixModel.Pure.Flush
 import NixModel.Lemmas.C17Flush
 import NixModel.Lemmas.C17Open
+import NixModel.Lemmas.C17Late
 
 /-!
 # C17 — `flush()` and `close()` make everything written so far survive a process kill
@@ -155,6 +156,42 @@ theorem C17_flush_idempotent (w : World) (hwf : WF w) (hd : Handle) (ho : w.hand
   rw [hk1]
   rfl
 
+/-- Several flush points in one writer: with any writes, write-backs and further flushes between two calls of
+`flush()`, a kill after the **last** one (and anything that writes nothing) shows the state at the last one —
+all writes up to it, not the state of an earlier flush. -/
+theorem C17_last_flush_wins (w : World) (hwf : WF w) (hd : Handle) (ho : w.handle = some hd)
+    (hrw : hd.mode ≠ .readOnly) (mid : List Ev) (hmid : ∀ e ∈ mid, sessionEv e = true)
+    (tail : List Ev) (hq : ∀ e ∈ tail, quiet e = true) (m : Mode) (hm : m ≠ .overwrite) :
+    reopenView (run (step (run (step w .flush).1 mid) .flush).1 tail) m =
+      some (applyWrites (writesOf mid) hd.cache) := by
+  have hk := C17_flush_shape.2.2.1
+  have h1 : (step w .flush).1.handle = some hd := (runBody_keeps Gen.fileFlushBody ho hk).1
+  have h2 := session_cache mid h1 hrw hmid hk
+  have hwf2 : WF (run (step w .flush).1 mid) := run_WF mid (step_WF .flush hwf)
+  exact (C17_flush_durable _ hwf2 _ h2 tail hq m hm).2.2
+
+/-- **Writes after the last flush** (the property promises nothing here; this says what the *model* does): after
+`flush()`, any further writes, write-backs and flushes, and a kill, the reopened file holds for every object the
+value it had after *some* prefix of the later writes — the flushed value or a newer one, never an older one, but
+possibly a mixture across objects that was never the state at any moment. Model-level only: the model's
+write-back is per object; libhdf5's is not (the harness's negative control finds such files unreadable or
+different), and the check asserts nothing about kills that follow unflushed writes. -/
+theorem C17_late_writes_bounded (w : World) (hwf : WF w) (hd : Handle) (ho : w.handle = some hd)
+    (hrw : hd.mode ≠ .readOnly) (es : List Ev) (hes : ∀ e ∈ es, sessionEv e = true)
+    (m : Mode) (hm : m ≠ .overwrite) :
+    ∃ d, reopenView (run (step w .flush).1 es) m = some d ∧
+      ∀ k, ∃ n, n ≤ (writesOf es).length ∧ d k = applyWrites ((writesOf es).take n) hd.cache k := by
+  have hk := C17_flush_shape.2.2.1
+  have hkeep := runBody_keeps Gen.fileFlushBody ho hk
+  have hset := runBody_syncs Gen.fileFlushBody ho hwf C17_flush_shape.1
+  have h0 : Late hd.cache [] hd.mode (step w .flush).1 :=
+    ⟨hkeep.1, by
+      show (runBody w Gen.fileFlushBody).1.pending = none
+      rw [hkeep.2.2]; exact (hwf hd ho).2,
+     hd.cache, hset.disk, fun k => ⟨0, Nat.le_refl _, rfl⟩⟩
+  have h1 := Late.runEvs hrw hk es hes h0
+  simpa using h1.reopen m hm
+
 /-! ### nothing flushed is ever lost, over any number of writer processes -/
 
 /-- Any number of writer processes one after the other, each opening the file for writing (`'a'`, or `'w'`
@@ -274,6 +311,26 @@ theorem C17_reopen_not_refused (h : List Ev) (hd : Handle) (ho : (run World.init
     rw [hw4, hw3, hw2, hw1, hw0']
     exact hold.2
 
+/-- … over any number of writer processes, with the open path inside: after every chain of durable sessions the
+next `File.open(path, 'r' | 'a')` is not refused and shows all writes of all processes in order. -/
+theorem C17_chain_reopen_open (ss : List Session) (hne : ss ≠ []) (hok : ∀ s ∈ ss, s.ok)
+    (m : Mode) (hm : m ≠ .overwrite) :
+    (stepO Gen.cfg (runO Gen.cfg OWorld.init (ss.flatMap Session.events)) (.open m)).2 = none ∧
+    viewO (stepO Gen.cfg (runO Gen.cfg OWorld.init (ss.flatMap Session.events)) (.open m)).1 =
+      some (chainStore ss Store.empty) := by
+  obtain ⟨_, hstep⟩ := C17_open_refines (ss.flatMap Session.events)
+  obtain ⟨h1, h2⟩ := hstep (.open m)
+  have hcl := (chain_durable ss hok Closed_init ⟨C17_flush_shape.1, C17_flush_shape.2.2.1⟩ C17_close_shape.1
+      C17_exit_shape.1).2 hne
+  refine ⟨?_, ?_⟩
+  · rw [h2]
+    obtain ⟨hn, hp, hd⟩ := hcl
+    show (openFile _ m).2 = none
+    rw [openFile_existing m hm hn (by rw [settle_none hp]; exact hd)]
+  · unfold viewO
+    rw [h1]
+    exact C17_chain_reopen ss hne hok m hm
+
 /-! ### the two shape conditions of the open path are what carries it -/
 
 /-- A lower library-version bound of 1.10 or newer in `make_fapl()`: whoever creates the file and writes,
@@ -286,13 +343,39 @@ theorem C17_locking_fapl_refuses (cfg : Cfg) (hl : locking cfg.low = true) (ha :
     (stepO cfg (runO cfg (stepO cfg ow (.open .overwrite)).1 body) .flush).2 = none ∧
     (reopenO cfg (stepO cfg (runO cfg (stepO cfg ow (.open .overwrite)).1 body) .flush).1 m).1 =
       some .runtimeError := by
-  obtain ⟨h0, hheld0⟩ := create_held hl ha hn
+  obtain ⟨h0, hheld0, _⟩ := create_held hl ha hn
   have hk := C17_flush_shape.2.2.1
   have hheld1 := run_held (cfg := cfg) hk body hheld0 hb
   have hheld2 := session_held (cfg := cfg) hk hheld1 .flush rfl
   refine ⟨h0, ?_, held_kill_refused hheld2 m hm⟩
   obtain ⟨hd, ho, _⟩ := hheld1.handle
   exact runBody_noraise Gen.fileFlushBody ho C17_flush_shape.2.1
+
+/-- … while a regular `close()` (or leaving the `with` block) clears the mark: even under a locking bound the
+closed file reopens and shows the state at the close — the loss is specific to `flush()` + kill, as observed. -/
+theorem C17_locking_close_ok (cfg : Cfg) (hl : locking cfg.low = true) (ha : cfg.createAtArg = true)
+    (ow : OWorld) (hn : ow.w.handle = none) (body : List Ev) (hb : ∀ e ∈ body, sessionEv e = true)
+    (fin : Ev) (hfin : fin = .close ∨ fin = .exit) (m : Mode) (hm : m ≠ .overwrite) :
+    ∃ hd, (runO cfg (stepO cfg ow (.open .overwrite)).1 body).w.handle = some hd ∧
+      reopenO cfg (stepO cfg (runO cfg (stepO cfg ow (.open .overwrite)).1 body) fin).1 m =
+        (none, some hd.cache) := by
+  obtain ⟨_, hheld0, hwf0⟩ := create_held hl ha hn
+  have hk := C17_flush_shape.2.2.1
+  have hheld1 := run_held (cfg := cfg) hk body hheld0 hb
+  have hwf1 : WF (runO cfg (stepO cfg ow (.open .overwrite)).1 body).w := by
+    rw [run_held_w hk body hheld0 hb]; exact run_WF body hwf0
+  have hcl : ∃ hd, (runO cfg (stepO cfg ow (.open .overwrite)).1 body).w.handle = some hd ∧
+      Settled hd.cache (stepO cfg (runO cfg (stepO cfg ow (.open .overwrite)).1 body) fin).1.w ∧
+      (stepO cfg (runO cfg (stepO cfg ow (.open .overwrite)).1 body) fin).1.w.handle = none ∧
+      (stepO cfg (runO cfg (stepO cfg ow (.open .overwrite)).1 body) fin).1.flag = false ∧
+      (stepO cfg (runO cfg (stepO cfg ow (.open .overwrite)).1 body) fin).1.detached = false := by
+    rcases hfin with rfl | rfl
+    · exact close_clears hheld1 hwf1 Gen.fileCloseBody C17_close_shape.1 C17_close_shape.2.2 .close rfl
+        (Or.inl rfl)
+    · exact close_clears hheld1 hwf1 Gen.fileExitBody C17_exit_shape.1 C17_exit_shape.2.2.1 .exit rfl
+        (Or.inr rfl)
+  obtain ⟨hd, ho, hset, _, hflag, _⟩ := hcl
+  exact ⟨hd, ho, reopen_unmarked hset hflag m hm⟩
 
 /-- A new file created beside the named path (`h5py.h5f.create` not given the caller's path): the flushed state
 is not at the named path — reopening shows what was there before. This is the other edit `C17_fapl_shape`
@@ -370,5 +453,12 @@ example : locking .v110 = true ∧ locking .latest = true ∧ locking .v18 = fal
       .readWrite).1 = some .runtimeError ∧
     (reopenO ⟨.latest, true⟩ (runO ⟨.latest, true⟩ OWorld.init [.open .readWrite, .write (.put "a" "1"), .close])
       .readWrite).1 = none := by decide
+
+/-- `C17_reopen_not_refused` on a concrete history; `C17_last_flush_wins` with a write between the flushes -/
+example : (reopenO Gen.cfg (runO Gen.cfg OWorld.init [.open .readWrite, .write (.put "a" "1"), .flush])
+      .readOnly).1 = none ∧
+    ∃ c, reopenView (run World.init [.open .overwrite, .write (.put "a" "1"), .flush, .write (.put "a" "2"),
+      .writeback ["a"], .flush, .writeback ["b"]]) .readWrite = some c ∧ c "a" = some "2" :=
+  ⟨by decide, _, rfl, by decide⟩
 
 end Nix.C17
